@@ -139,10 +139,10 @@ PROPS = {
                         "rowan's own assertions (single root: was the panic fixed in d0c8925; not visible to a contract), actual stack size per frame", "apollo_compiler::parser wrappers"],
     },
     "C02": {
-        "level": "proof",
+        "level": "other",   # deductive verification, but one obligation is a KNOWN FINDING (genuine defect): discharged < obligations, so not a proof-level record
         "verus": ["parser_core", "lexer"],
         "frame": ["grammar_uses_primitives_only", "document_ends_with_flush"],
-        "explanation": "PARTIAL, one known finding. Conserved quantity all_text = tree text + queued tokens + look-ahead token + unread input: Verus proves every parser primitive "
+        "explanation": "Contract-based deductive verification (Verus) with ONE KNOWN FINDING, hence not claimed at proof level. Conserved quantity all_text = tree text + queued tokens + look-ahead token + unread input: Verus proves every parser primitive "
                        "and every extracted grammar function conserves it in order (nothing lost, nothing duplicated, nothing reordered), push_ignored flushes the queue, and "
                        "lemma_lossless derives tree text == input from conservation plus document()'s final state. ty::parse violates it at one exit (known finding: the token "
                        "after `[` is dropped when no type starts there).",
